@@ -2,6 +2,7 @@ import Aoe.Lemmas.MapElev
 import Aoe.Lemmas.MapElevRange
 import Aoe.Lemmas.MapElevHist
 import Aoe.Lemmas.MapElevLower
+import Aoe.Lemmas.MapElevRaise
 /-!
 # C20 – elevation editing raises exactly the requested area and keeps the terrain smooth
 
@@ -314,6 +315,63 @@ theorem setElevation_eq_pyramid_lower_one (fs : Bool) (fuel : Nat) (s : Nat) (b 
   · have hn : (flat s b).tiles[k]? = none := List.getElem?_eq_none (by omega)
     rw [hn, List.getElem?_eq_none (by simp [pyramid]; omega)]
     split <;> rfl
+
+/-- **raise_one_exact**: raising a rectangle (more than one tile) to `e` on a map that is everywhere one level lower
+changes *exactly* the requested area.  The source tiles are at the highest level; a lower neighbour would be filled
+only if the tile behind it were at the source's level, i.e. inside the rectangle - impossible, the rectangle is convex.
+Pinned and repaired code, every fuel with which the model returns. -/
+theorem raise_one_exact (fs : Bool) (fuel : Nat) (m m' : Map) (e : Int) (x1 y1 x2 y2 : Nat) (hwf : WF m)
+    (hx : x1 ≤ x2) (hx2 : x2 < m.size) (hy : y1 ≤ y2) (hy2 : y2 < m.size) (hns : ¬ (x1 = x2 ∧ y1 = y2))
+    (hm : ∀ (k : Nat) (t : Tile), m.tiles[k]? = some t → t.elevation = e - 1)
+    (h : setElevation fs fuel m e x1 y1 (some (x2 : Int)) (some (y2 : Int)) = .ok m') :
+    ∀ k : Nat, m'.tiles[k]? = if k ∈ (rectRows m.size x1 y1 x2 y2).flatten
+      then (m.tiles[k]?).map (fun t => t.withElev e) else m.tiles[k]? := by
+  intro k
+  rw [setElevation_raise_one fs fuel m m' e x1 y1 x2 y2 hwf hx hx2 hy hy2 hns hm h, fill_spec]
+
+/-- **setElevation_eq_pyramid_raise_one**: the unproved equation `operational = closed form` holds in full when a
+rectangle of more than one tile is raised by one level on a flat map - any size, base, rectangle on the map, any
+fuel with which the model returns, pinned and repaired code -/
+theorem setElevation_eq_pyramid_raise_one (fs : Bool) (fuel : Nat) (s : Nat) (b : Int) (x1 y1 x2 y2 : Nat) (m' : Map)
+    (hx : x1 ≤ x2) (hx2 : x2 < s) (hy : y1 ≤ y2) (hy2 : y2 < s) (hns : ¬ (x1 = x2 ∧ y1 = y2))
+    (h : setElevation fs fuel (flat s b) (b + 1) x1 y1 (some (x2 : Int)) (some (y2 : Int)) = .ok m') :
+    m'.tiles.map (·.elevation) = pyramid s b (b + 1) x1 y1 x2 y2 := by
+  have hwf : WF (flat s b) := wf_resetIndices s _ (by simp)
+  have hlen : (flat s b).tiles.length = s * s := by simp [flat, resetIndices]
+  have hex := raise_one_exact fs fuel (flat s b) m' (b + 1) x1 y1 x2 y2 hwf hx hx2 hy hy2 hns
+    (fun k t ht => by rw [flat_elev s b k t ht]; omega) h
+  have hsz : (flat s b).size = s := rfl
+  rw [hsz] at hex
+  apply List.ext_getElem?
+  intro k
+  rw [List.getElem?_map, hex k]
+  by_cases hk : k < s * s
+  · have hk' : k < (flat s b).tiles.length := by omega
+    have hel := flat_elev s b k _ (List.getElem?_eq_getElem hk')
+    have hs : 0 < s := by omega
+    simp only [pyramid, List.getElem?_map, List.getElem?_range hk, Option.map_some, List.getElem?_eq_getElem hk']
+    split
+    · next hmem =>
+      obtain ⟨x, y, h1, h2, h3, h4, rfl⟩ := (mem_rectRows _ _ _ _ _ _).mp hmem
+      have hxs : x < s := by omega
+      simp only [Option.map_some, Tile.withElev]
+      rw [Nat.add_mul_mod_self_right, Nat.mod_eq_of_lt hxs, Nat.add_mul_div_right _ _ hs, Nat.div_eq_of_lt hxs,
+        Nat.zero_add, pyramid_rect (b) (b + 1) x1 y1 x2 y2 x y (by omega) (by omega) (by omega) (by omega)]
+    · next hmem =>
+      have hnot : ¬ (x1 ≤ k % s ∧ k % s ≤ x2 ∧ y1 ≤ k / s ∧ k / s ≤ y2) := fun hh =>
+        hmem ((mem_rectRows _ _ _ _ _ _).mpr ⟨k % s, k / s, hh.1, hh.2.1, hh.2.2.1, hh.2.2.2,
+          by rw [Nat.mul_comm]; exact (Nat.mod_add_div k s).symm⟩)
+      simp only [Option.map_some, hel]
+      congr 1
+      unfold pyramidAt cheb
+      split <;> omega
+  · have hn : (flat s b).tiles[k]? = none := List.getElem?_eq_none (by omega)
+    rw [hn, List.getElem?_eq_none (by simp [pyramid]; omega)]
+    split <;> rfl
+
+/-- non-vacuity: a flat 4×4 map of elevation 2 raised to 3 on the rectangle (1,1)-(2,2) -/
+example : (setElevation false (elevFuel (flat 4 2)) (flat 4 2) 3 1 1 (some 2) (some 2)).map
+    (fun m => m.tiles.map (·.elevation)) = .ok (pyramid 4 2 3 1 1 2 2) := by decide +kernel
 
 /-- non-vacuity: a flat 4×4 map of elevation 3 lowered to 2 on the rectangle (1,1)-(2,2); the call returns and the
 result is the closed form -/
